@@ -27,7 +27,8 @@
   handshake agrees ... or fails cleanly        handshake_agree (server, all 4-byte requests),
                                                client_handshake (client, all replies),
                                                handshake_compose, handshake_compose_any,
-                                               handshake_refusal_clean
+                                               handshake_refusal_clean, handshake_truncated,
+                                               handshake_closes_iff_no_peer
   dropped as a whole (too large/unserialisable) sender_drops_iff, frame_shape
   intact, in order, later ones unaffected      stream, stream_payloads, stream_then
   reader is a function of the concatenation    chunking, decode_append
@@ -51,7 +52,13 @@
                                                serializer models of C14 in
                                                `Nexus/Frame/WpDStreamCodec.lean`
                                                (Nexus.C15.stream_codec, connected_streams_codec)
-  truncated frames (a6)                        msg_truncated, header_truncated, msg_truncated_eof
+  truncated frames (a6)                        msg_truncated, header_truncated, sender_frame_cut
+  END OF STREAM as an input (a6, c)            runIn_bytes, eof_after_any_prefix, eof_reason,
+                                               eof_clean, eof_clean_stream, msg_truncated_eof,
+                                               ping_truncated_eof, pong_truncated_eof,
+                                               header_truncated_eof, eof_is_final,
+                                               eof_action_by_read, eof_in_header_sender_drains,
+                                               eof_in_body_nothing_guaranteed
   any inbound mix of MSG/PING/PONG (a4, a7)    mixed_frames, bad_header_after_units
   PONGs and the TWO receive limits (b2)        ping_answer_wellFormed, pong_over_peer_limit_closes,
                                                ping_answer_closes_asker,
@@ -238,6 +245,43 @@ theorem connected_limits (p : UInt8) (rc rs : Int) (c s : PeerCfg) (rep : List U
 example : connect 2 600 0 =
     (.ok ⟨some "MessagePackSerializer", 16777216, 1024⟩,
      ⟨some [0x7f, 0xf2, 0, 0], .ok ⟨some "MessagePackSerializer", 1024, 16777216⟩⟩) := by decide
+
+/-- Audit c / a3 / b9: END OF STREAM DURING THE HANDSHAKE.  A client that sends fewer than four
+    bytes and stops (server side), or a server that answers with fewer than four bytes and stops
+    (client side): no byte is written in reply, NO peer is created (so no reader / sender
+    goroutine is started), the error is `io.ReadFull`'s — "EOF" when nothing came, "unexpected
+    EOF" after 1..3 bytes —, and the connection is closed by `AcceptRawSocket` /
+    `ConnectRawSocketPeer`. -/
+theorem handshake_truncated (rs : Int) (p : UInt8) (rc : Int) (bs : List UInt8) (h : bs.length < 4) :
+    acceptRawSocket rs bs = ⟨none, .error (if bs = [] then "EOF" else "unexpected EOF"), true⟩ ∧
+      connectRawSocketPeer p rc bs = (.error (if bs = [] then "EOF" else "unexpected EOF"), true) := by
+  match bs, h with
+  | [], _ => exact ⟨rfl, rfl⟩
+  | [_], _ => exact ⟨rfl, rfl⟩
+  | [_, _], _ => exact ⟨rfl, rfl⟩
+  | [_, _, _], _ => exact ⟨rfl, rfl⟩
+  | _ :: _ :: _ :: _ :: _, h => simp at h; omega
+
+example : acceptRawSocket 512 [0x7f, 0xf1] = ⟨none, .error "unexpected EOF", true⟩ := rfl
+
+/-- ... and in general "fails cleanly" includes the connection: on either side it is closed exactly
+    when no peer is returned, whatever bytes came and however many. -/
+theorem handshake_closes_iff_no_peer (rs : Int) (p : UInt8) (rc : Int) (bs : List UInt8) :
+    ((acceptRawSocket rs bs).connClosed = true ↔ ∀ c, (acceptRawSocket rs bs).result ≠ .ok c) ∧
+      ((connectRawSocketPeer p rc bs).2 = true ↔ ∀ c, (connectRawSocketPeer p rc bs).1 ≠ .ok c) := by
+  have key : ∀ r : HsResult, ((!r.isOk) = true ↔ ∀ c, r ≠ .ok c) := by
+    intro r
+    cases r with
+    | ok c => simp [HsResult.isOk]
+    | error e => simp [HsResult.isOk]
+  constructor
+  · match bs with
+    | _ :: _ :: _ :: _ :: _ => exact key _
+    | [] => simp [acceptRawSocket]
+    | [_] => simp [acceptRawSocket]
+    | [_, _] => simp [acceptRawSocket]
+    | [_, _, _] => simp [acceptRawSocket]
+  · exact key _
 
 /-! ## sender -/
 
@@ -786,22 +830,242 @@ theorem header_truncated {M : Type} (de : List UInt8 → Option M) (rl : Int)
 example : decodeStream (M := List UInt8) some 512 [0, 0, 0, 1, 0x41, 0x00, 0x00] =
     ([.deliver [0x41]], .hdr2 0 0) := by decide
 
-/-- ... and when the stream ENDS there (EOF is not an input of the reader model; `WpD.readerAtEOF`
-    is the proposed reading of rawsocketpeer.go:269-286, :299-304, see the report): the reader
-    ends "inside a frame", having handed over the earlier messages only. -/
+/-! ## reader: END OF STREAM as an input (audit a6, c)
+
+  `Nexus.Frame.In` = one more byte | end of stream; `stepIn` / `runIn` / `decodeStreamEOF`
+  extend `step` / `run` / `decodeStream` (`Nexus/Frame/Stream.lean`, with the reading of
+  rawsocketpeer.go:269-286, :299-304, :317-321, :329-334 it rests on). -/
+
+/-- The extension is conservative: on inputs that are all bytes, `runIn` IS `run`; every
+    theorem about `run` / `decodeStream` is a theorem about the extended machine. -/
+theorem runIn_bytes {M : Type} (de : List UInt8 → Option M) (rl : Int) (s : RState)
+    (bytes : List UInt8) : runIn de rl s (bytes.map In.byte) = run de rl s bytes :=
+  Frame.runIn_bytes de rl s bytes
+
+/-- For EVERY byte string: the end of the stream adds NO event — what the reader handed over and
+    wrote back is exactly what it had handed over and written when the last byte had been
+    processed —, and the reader goroutine has returned (`closed`), whatever state it was in. -/
+theorem eof_after_any_prefix {M : Type} (de : List UInt8 → Option M) (rl : Int)
+    (bytes : List UInt8) :
+    (decodeStreamEOF de rl bytes).1 = (decodeStream de rl bytes).1 ∧
+      (decodeStreamEOF de rl bytes).2 = atEOF (decodeStream de rl bytes).2 ∧
+      (decodeStreamEOF de rl bytes).2.isClosed = true := by
+  rw [decodeStreamEOF_eq]
+  exact ⟨rfl, rfl, atEOF_isClosed _⟩
+
+example : decodeStreamEOF (M := List UInt8) some 512 [0, 0, 0, 1, 0x41, 0x01, 0, 0, 2, 0xAA] =
+    ([.deliver [0x41]], .closed (.eof true)) := by decide
+
+/-- ... and the reason says exactly where the stream ended: `eof false` iff the reader was idle
+    between frames, `eof true` iff it was inside a header or a body, and the reader's own reason
+    (oversize, reserved type) iff it had closed the connection itself before. -/
+theorem eof_reason {M : Type} (de : List UInt8 → Option M) (rl : Int) (bytes : List UInt8) :
+    ((decodeStreamEOF de rl bytes).2 = .closed (.eof false) ↔ (decodeStream de rl bytes).2 = .hdr0) ∧
+      ((decodeStreamEOF de rl bytes).2 = .closed (.eof true) ↔
+        (decodeStream de rl bytes).2.inFrame = true) ∧
+      (∀ why, (∀ b, why ≠ .eof b) →
+        ((decodeStreamEOF de rl bytes).2 = .closed why ↔ (decodeStream de rl bytes).2 = .closed why)) := by
+  rw [decodeStreamEOF_eq]
+  have hs := decodeStream_not_sawEOF de rl bytes
+  generalize (decodeStream de rl bytes).2 = s at hs
+  refine ⟨?_, ?_, ?_⟩
+  · cases s with
+    | closed why => cases why <;> simp_all [atEOF, RState.sawEOF]
+    | _ => simp [atEOF]
+  · cases s with
+    | closed why => cases why <;> simp_all [atEOF, RState.sawEOF, RState.inFrame]
+    | _ => simp [atEOF, RState.inFrame]
+  · intro why hw
+    cases s with
+    | closed why' => simp [atEOF]
+    | hdr0 => simp only [atEOF]; constructor
+              · intro h; injection h with h; exact absurd h.symm (hw _)
+              · intro h; cases h
+    | _ =>
+      simp only [atEOF]
+      constructor
+      · intro h; injection h with h; exact absurd h.symm (hw _)
+      · intro h; cases h
+
+/-- EOF BETWEEN FRAMES.  After any well-formed inbound traffic (MSG, PING, PONG frames in any
+    order) the stream ends: everything before has had its effect — every MSG handed over, every
+    PING answered —, nothing else happens, and the reader has returned with `eof false`.  On its
+    way out it logs nothing, cancels the sender goroutine and waits for it, then closes the
+    connection (rawsocketpeer.go:269-286). -/
+theorem eof_clean {M : Type} (de : List UInt8 → Option M) (rl : Int) (fs : List WpD.InFrame)
+    (hf : ∀ f, f ∈ fs → f.wellFormed rl) :
+    decodeStreamEOF de rl (fs.flatMap WpD.InFrame.bytes) =
+        (fs.flatMap (WpD.InFrame.events de), .closed (.eof false)) ∧
+      readErrAction (decodeStream de rl (fs.flatMap WpD.InFrame.bytes)).2 =
+        some ⟨none, true, true⟩ := by
+  rw [decodeStreamEOF_eq]
+  have h := mixed_frames de rl fs hf []
+  rw [List.append_nil] at h
+  rw [h]
+  simp [decodeStream, run, atEOF, readErrAction]
+
+example : decodeStreamEOF (M := List UInt8) some 512 (mixedExample.flatMap WpD.InFrame.bytes) =
+    ([.deliver [0x41], .wrote [2, 0, 0, 2, 0xAA, 0xBB], .deliver [0x42]], .closed (.eof false)) := by
+  decide
+
+/-- The same for what OUR sender writes (`stream` + end of stream): every message that serialises
+    and fits is handed over, in order, and the reader returns with `eof false`. -/
+theorem eof_clean_stream {M : Type} (ser : M → Option (List UInt8)) (de : List UInt8 → Option M)
+    (hrt : ∀ m p, ser m = some p → de p = some m)
+    (sl rl : Int) (hsl : sl ≤ rl) (msgs : List M) :
+    decodeStreamEOF de rl (sendAll ser sl msgs) =
+      ((msgs.filter (arrives ser sl)).map Ev.deliver, .closed (.eof false)) := by
+  rw [decodeStreamEOF_eq, stream ser de hrt sl rl hsl msgs]
+  rfl
+
+example : decodeStreamEOF (M := Nat) (fun p => some p.length) 512
+    (sendAll (fun n => if n = 7 then none else some (List.replicate n 0x61)) 4 [3, 9, 7, 2]) =
+    ([.deliver 3, .deliver 2], .closed (.eof false)) := by
+  decide
+
+/-- EOF INSIDE A MSG BODY (audit a6; restated over the real model — it used to be stated over the
+    hand-written `WpD.readerAtEOF`).  A MSG frame whose body is cut short (the header announces
+    `n ≤ recvLimit` bytes, only `p.length < n` have arrived) and then the stream ENDS, after any
+    well-formed traffic: NOTHING is handed over or written for that frame — the events are
+    exactly those of the frames before it —, the reader returns with `eof true`; on its way out
+    it logs "Error reading message:", closes the connection at once and does NOT cancel the
+    sender goroutine (rawsocketpeer.go:299-304). -/
 theorem msg_truncated_eof {M : Type} (de : List UInt8 → Option M) (rl : Int)
     (fs : List WpD.InFrame) (hf : ∀ f, f ∈ fs → f.wellFormed rl) (h0 l0 l1 l2 : UInt8)
     (n : Nat) (p : List UInt8) (ht : h0.toNat % 8 = 0)
     (hn : Gen.bytesToInt [l0, l1, l2] = Int.ofNat n) (hle : (n : Int) ≤ rl) (hp : p.length < n) :
-    WpD.readerAtEOF (decodeStream de rl (fs.flatMap WpD.InFrame.bytes ++ h0 :: l0 :: l1 :: l2 :: p)).2 =
-        .eofInsideFrame (.body (n - 1 - p.length) p.reverse) ∧
-      delivered (decodeStream de rl (fs.flatMap WpD.InFrame.bytes ++ h0 :: l0 :: l1 :: l2 :: p)).1 =
-        delivered (decodeStream de rl (fs.flatMap WpD.InFrame.bytes)).1 := by
-  rw [msg_truncated de rl fs hf h0 l0 l1 l2 n p ht hn hle hp]
+    decodeStreamEOF de rl (fs.flatMap WpD.InFrame.bytes ++ h0 :: l0 :: l1 :: l2 :: p) =
+        (fs.flatMap (WpD.InFrame.events de), .closed (.eof true)) ∧
+      delivered (decodeStreamEOF de rl (fs.flatMap WpD.InFrame.bytes ++ h0 :: l0 :: l1 :: l2 :: p)).1 =
+        delivered (decodeStream de rl (fs.flatMap WpD.InFrame.bytes)).1 ∧
+      readErrAction (decodeStream de rl (fs.flatMap WpD.InFrame.bytes ++ h0 :: l0 :: l1 :: l2 :: p)).2 =
+        some ⟨some "Error reading message:", false, true⟩ := by
+  rw [decodeStreamEOF_eq, msg_truncated de rl fs hf h0 l0 l1 l2 n p ht hn hle hp]
   have h := mixed_frames de rl fs hf []
   rw [List.append_nil] at h
   rw [h]
-  exact ⟨rfl, by simp [decodeStream, run]⟩
+  exact ⟨rfl, by simp [decodeStream, run], rfl⟩
+
+example : decodeStreamEOF (M := List UInt8) some 512
+    (mixedExample.flatMap WpD.InFrame.bytes ++ [0x00, 0, 0, 5, 0x43, 0x44]) =
+    ([.deliver [0x41], .wrote [2, 0, 0, 2, 0xAA, 0xBB], .deliver [0x42]], .closed (.eof true)) := by
+  decide
+
+/-- EOF INSIDE A PING PAYLOAD: nothing is written for that PING (no PONG header, no partial
+    echo), `eof true`; log "Error reading PING:", connection closed at once, sender not
+    cancelled (rawsocketpeer.go:317-321). -/
+theorem ping_truncated_eof {M : Type} (de : List UInt8 → Option M) (rl : Int)
+    (fs : List WpD.InFrame) (hf : ∀ f, f ∈ fs → f.wellFormed rl) (h0 l0 l1 l2 : UInt8)
+    (n : Nat) (p : List UInt8) (ht : h0.toNat % 8 = 1)
+    (hn : Gen.bytesToInt [l0, l1, l2] = Int.ofNat n) (hle : (n : Int) ≤ rl) (hp : p.length < n) :
+    decodeStreamEOF de rl (fs.flatMap WpD.InFrame.bytes ++ h0 :: l0 :: l1 :: l2 :: p) =
+        (fs.flatMap (WpD.InFrame.events de), .closed (.eof true)) ∧
+      readErrAction (decodeStream de rl (fs.flatMap WpD.InFrame.bytes ++ h0 :: l0 :: l1 :: l2 :: p)).2 =
+        some ⟨some "Error reading PING:", false, true⟩ := by
+  have hk : Gen.readerCase (Gen.frameType h0) = .ping := by
+    rw [readerCase_frameType, if_neg (by omega), if_pos ht]
+  rw [decodeStreamEOF_eq, mixed_frames de rl fs hf]
+  unfold decodeStream
+  rw [run_ping_truncated de rl h0 l0 l1 l2 n p hk hn hle hp]
+  exact ⟨by simp [atEOF], rfl⟩
+
+example : decodeStreamEOF (M := List UInt8) some 512 [0, 0, 0, 1, 0x41, 0x09, 0, 0, 5, 0xAA, 0xBB] =
+    ([.deliver [0x41]], .closed (.eof true)) := by decide
+
+/-- EOF INSIDE A PONG PAYLOAD: `eof true`; log "Error reading PONG:", connection closed at once,
+    sender not cancelled (rawsocketpeer.go:329-334). -/
+theorem pong_truncated_eof {M : Type} (de : List UInt8 → Option M) (rl : Int)
+    (fs : List WpD.InFrame) (hf : ∀ f, f ∈ fs → f.wellFormed rl) (h0 l0 l1 l2 : UInt8)
+    (n : Nat) (p : List UInt8) (ht : h0.toNat % 8 = 2)
+    (hn : Gen.bytesToInt [l0, l1, l2] = Int.ofNat n) (hle : (n : Int) ≤ rl) (hp : p.length < n) :
+    decodeStreamEOF de rl (fs.flatMap WpD.InFrame.bytes ++ h0 :: l0 :: l1 :: l2 :: p) =
+        (fs.flatMap (WpD.InFrame.events de), .closed (.eof true)) ∧
+      readErrAction (decodeStream de rl (fs.flatMap WpD.InFrame.bytes ++ h0 :: l0 :: l1 :: l2 :: p)).2 =
+        some ⟨some "Error reading PONG:", false, true⟩ := by
+  have hk : Gen.readerCase (Gen.frameType h0) = .pong := by
+    rw [readerCase_frameType, if_neg (by omega), if_neg (by omega), if_pos ht]
+  rw [decodeStreamEOF_eq, mixed_frames de rl fs hf]
+  unfold decodeStream
+  rw [WpD.run_pong_truncated de rl h0 l0 l1 l2 n p hk hn hle hp]
+  exact ⟨by simp [atEOF], rfl⟩
+
+example : decodeStreamEOF (M := List UInt8) some 512 [0, 0, 0, 1, 0x41, 0x02, 0, 0, 5, 0xAA, 0xBB] =
+    ([.deliver [0x41]], .closed (.eof true)) := by decide
+
+/-- EOF INSIDE A HEADER (1..3 bytes of it have come): `eof true` — but the code does not tell
+    this from a clean end: the same branch as between frames (nothing logged, sender cancelled and
+    awaited, then the connection closed; rawsocketpeer.go:269-286 does not look at the error). -/
+theorem header_truncated_eof {M : Type} (de : List UInt8 → Option M) (rl : Int)
+    (fs : List WpD.InFrame) (hf : ∀ f, f ∈ fs → f.wellFormed rl) (bs : List UInt8)
+    (h1 : 1 ≤ bs.length) (h : bs.length < 4) :
+    decodeStreamEOF de rl (fs.flatMap WpD.InFrame.bytes ++ bs) =
+        (fs.flatMap (WpD.InFrame.events de), .closed (.eof true)) ∧
+      readErrAction (decodeStream de rl (fs.flatMap WpD.InFrame.bytes ++ bs)).2 =
+        some ⟨none, true, true⟩ := by
+  rw [decodeStreamEOF_eq, mixed_frames de rl fs hf]
+  unfold decodeStream
+  rw [WpD.run_header_short de rl bs h]
+  match bs, h1, h with
+  | [_], _, _ => exact ⟨by simp [atEOF], rfl⟩
+  | [_, _], _, _ => exact ⟨by simp [atEOF], rfl⟩
+  | [_, _, _], _, _ => exact ⟨by simp [atEOF], rfl⟩
+  | [], h1, _ => simp at h1
+  | _ :: _ :: _ :: _ :: _, _, h => simp at h; omega
+
+example : decodeStreamEOF (M := List UInt8) some 512 [0, 0, 0, 1, 0x41, 0x00, 0x00] =
+    ([.deliver [0x41]], .closed (.eof true)) := by decide
+
+/-- EOF IS FINAL: nothing after the end of the stream is read — whatever is appended to the input
+    after `eof` (bytes, further `eof`s), the result is that of the input up to and including the
+    first `eof` —, and the reader is closed. -/
+theorem eof_is_final {M : Type} (de : List UInt8 → Option M) (rl : Int) (s : RState)
+    (pre post : List In) :
+    runIn de rl s (pre ++ In.eof :: post) = runIn de rl s (pre ++ [In.eof]) ∧
+      (runIn de rl s (pre ++ In.eof :: post)).2.isClosed = true := by
+  rw [runIn_append, runIn_append, runIn_eof_cons, runIn_eof_cons]
+  exact ⟨rfl, atEOF_isClosed _⟩
+
+example : runIn (M := List UInt8) some 512 .hdr0
+    ([In.byte 0, In.byte 0, In.eof] ++ [0, 1, 0x41, 0, 0, 0, 1, 0x42].map In.byte) =
+    ([], .closed (.eof true)) := by decide
+
+/-- What else `recvHandler` does when a read fails depends ONLY on whether it was the header read
+    or a body read — not on whether the stream ended between frames or inside one: the sender is
+    cancelled (and awaited) exactly in the header case, a line is logged exactly in the other,
+    the connection is closed in both. -/
+theorem eof_action_by_read (s : RState) (a : ReadErrAction) (h : readErrAction s = some a) :
+    (a.cancelsSender = true ↔ s.inHeader = true) ∧ (a.logs = none ↔ s.inHeader = true) ∧
+      a.closesConn = true := by
+  cases s <;> simp [readErrAction] at h <;> subst h <;> simp [RState.inHeader]
+
+example : readErrAction (.hdr2 0 0) = some ⟨none, true, true⟩ := rfl
+
+/-- SENDER-SIDE CONSEQUENCE (with `drain_writes_all`).  When the stream ends between frames or
+    inside a header, the reader cancels the sender goroutine and waits for it before it closes
+    the connection, so every message queued at that moment gets its write call, in order, on the
+    still open connection — the GOODBYE answering a peer that half-closed, for instance. -/
+theorem eof_in_header_sender_drains {M : Type} (ser : M → Option (List UInt8)) (sl : Int)
+    (s : RState) (hs : s.inHeader = true) (oracle : List Bool) (queue : List M) :
+    senderCallsAfterEOF ser sl s oracle queue = queue.flatMap (messageCalls ser sl) := by
+  have ha : readErrAction s = some ⟨none, true, true⟩ := by
+    cases s <;> first | rfl | cases hs
+  unfold senderCallsAfterEOF
+  rw [ha]
+  exact afterCancel_drains (messageCalls ser sl) oracle queue
+
+example : wire (senderCallsAfterEOF (M := Nat) (fun n => some (List.replicate n 0x61)) 512
+    (.hdr1 0) [false] [1, 2]) = [0, 0, 0, 1, 0x61, 0, 0, 0, 2, 0x61, 0x61] := by decide
+
+/-- ... whereas when it ends inside a MSG / PING / PONG body the connection is closed under the
+    running sender: no write of a queued message is guaranteed any more. -/
+theorem eof_in_body_nothing_guaranteed {M : Type} (ser : M → Option (List UInt8)) (sl : Int)
+    (s : RState) (hs : s.inHeader = false) (oracle : List Bool) (queue : List M) :
+    senderCallsAfterEOF ser sl s oracle queue = [] := by
+  unfold senderCallsAfterEOF
+  cases s <;> first | rfl | cases hs
+
+example : senderCallsAfterEOF (M := Nat) (fun n => some (List.replicate n 0x61)) 512
+    (.body 2 [0x41]) [true] [1, 2] = [] := rfl
 
 /-! ## two goroutines write to one connection -/
 
